@@ -358,6 +358,51 @@ def recycled_fresh(rounds, seeds=(0, 1, 2)):
     return bad, n
 
 
+def compound_results():
+    """N-tuples and objects of every shape a program writes — literal members, non-literal members, nested, fields named
+    like the attributes the wrappers themselves carry (`value`, `values`, `child`, `size`, `mode`) — have no truth value and
+    answer no membership test: `if record`, `not record`, `probe in record` raise whatever the members are.  (A compound of
+    literals only is still an operation of the program, not a Python constant.)"""
+    import nada_dsl as D
+    from nada_dsl.program_io import Input as RawInput
+    bad, n = [], 0
+    reset_globals()
+    party = D.Party("p")
+
+    def sec(name):
+        return D.SecretInteger(RawInput(name, party))
+    shapes = {}
+    try:
+        shapes["NTuple.new([secret, Integer(5)])"] = D.NTuple.new([sec("a"), D.Integer(5)])
+        shapes["NTuple.new([secret, secret])"] = D.NTuple.new([sec("b"), sec("c")])
+        for field in ("value", "values", "child", "size", "mode", "base_type", "plain"):
+            for lit_text, lit in (("Integer(5)", D.Integer(5)), ("Boolean(True)", D.Boolean(True)), ("Integer(0)", D.Integer(0))):
+                shapes[f"Object.new({{'{field}': {lit_text}, 'owner': secret}})"] = D.Object.new({field: lit, "owner": sec(f"o{field}{lit_text}")})
+            shapes[f"Object.new({{'{field}': secret}})"] = D.Object.new({field: sec("s" + field)})
+        inner = D.Object.new({"value": D.Integer(7), "k": sec("k")})
+        shapes["NTuple.new([Object.new({'value': Integer(7), 'k': secret}), secret])[0]"] = D.NTuple.new([inner, sec("d")])[0]
+        shapes["Object.new({'rec': Object.new({'value': Integer(7), 'k': secret})}).rec"] = D.Object.new({"rec": inner}).rec
+        shapes["NTuple.new([NTuple.new([secret, secret]), secret])[0]"] = D.NTuple.new([D.NTuple.new([sec("e"), sec("f")]), sec("g")])[0]
+        shapes["Object.new({'pair': NTuple.new([secret, secret])}).pair"] = D.Object.new({"pair": D.NTuple.new([sec("h"), sec("i")])}).pair
+    except Exception as exc:  # pylint: disable=broad-except
+        return [("construction of the compound shapes", f"{type(exc).__name__}: {exc}")], 0
+    probe = sec("probe")
+    for text, x in shapes.items():
+        routes = {
+            "bool(x)": lambda x=x: bool(x), "not x": lambda x=x: not x, "x and 1": lambda x=x: x and 1, "x or 1": lambda x=x: x or 1,
+            "1 if x else 2": lambda x=x: 1 if x else 2, "while x": lambda x=x: _while(x), "any([x])": lambda x=x: any([x]),
+            "all([x])": lambda x=x: all([x]), "filter(None, [x])": lambda x=x: list(filter(None, [x])),
+            "probe in x": lambda x=x: probe in x, "probe not in x": lambda x=x: probe not in x,
+            "1 if probe in x else 2": lambda x=x: 1 if probe in x else 2,
+        }
+        for rname, thunk in routes.items():
+            n += 1
+            if kind(thunk) != "raises":
+                bad.append((f"x = {text}; {rname}", "did not raise: Python read a truth value / a membership answer from a compound Nada value"))
+    reset_globals()
+    return bad, n
+
+
 def run(res, tier):
     rec_bad, nrec = recycled_fresh(12 if tier == "quick" else 100)
     for text, why in rec_bad[:2]:
@@ -368,6 +413,9 @@ def run(res, tier):
     alias_bad, nalias = aliasing_results()
     for text, why in alias_bad[:4]:
         res.violation({"property": "C07", "kind": "aliased-member", "expr": text, "why": why}, f"{text}: {why}")
+    comp_bad, ncomp = compound_results()
+    for text, why in comp_bad[:4]:
+        res.violation({"property": "C07", "kind": "compound", "expr": text, "why": why}, f"{text}: {why}")
     mixed, nmixed = mixed_results()
     for text, why in mixed[:6]:
         res.violation({"property": "C07", "kind": "mixed-result", "expr": text, "why": why}, f"{text}: {why}")
@@ -430,7 +478,7 @@ def run(res, tier):
                 "each also used as condition / ordering / membership); non-trivial = distinct (class, route, other) triples",
         "classes": [c.__name__ for c in classes],
         "protocol_model_disagreements": len(diffs),
-        "mixed_literal_operand_results_checked": nmixed, "comparisons_after_dropped_literals": nrec,
+        "mixed_literal_operand_results_checked": nmixed, "compound_value_routes_checked": ncomp, "comparisons_after_dropped_literals": nrec,
         "array_walks_checked": len(arr_rows), "array_provenances": sorted({p for p, _, _ in arr_rows}),
         "samples": samples,
     })
@@ -447,6 +495,12 @@ def replay(obj):
         return 1 if bad else 0
     if obj.get("kind") == "recycled":
         bad = recycled_fresh(100)[0]
+        print(bad or "ok")
+        if bad:
+            print("VIOLATION property=C07 replay=(replayed)")
+        return 1 if bad else 0
+    if obj.get("kind") == "compound":
+        bad = [b for b in compound_results()[0] if b[0] == obj["expr"]]
         print(bad or "ok")
         if bad:
             print("VIOLATION property=C07 replay=(replayed)")
